@@ -11,6 +11,7 @@ import (
 	"time"
 
 	"github.com/mdlayher/corerad/internal/plugin"
+	"github.com/mdlayher/corerad/internal/system"
 	"github.com/mdlayher/corerad/verifrt/enum"
 	"github.com/mdlayher/corerad/verifrt/ev"
 	"github.com/mdlayher/ndp"
@@ -33,6 +34,10 @@ const (
 func c16Plugins() []plugin.Plugin {
 	epoch := time.Now() // inside the bubble: the virtual clock's start
 	return []plugin.Plugin{
+		// The ::/64 wildcard comes first and also expands to the deprecated stanza's /64 (the
+		// interface has an address in it): both options are advertised, each with its own lifetimes.
+		&plugin.Prefix{Auto: true, Prefix: netip.MustParsePrefix("::/64"), OnLink: true, Autonomous: true,
+			ValidLifetime: 2 * time.Hour, PreferredLifetime: time.Hour},
 		&plugin.Prefix{Prefix: netip.MustParsePrefix("2001:db8:d::/64"), OnLink: true, Autonomous: true,
 			ValidLifetime: c16Valid, PreferredLifetime: c16Pref, Deprecated: true, Epoch: epoch},
 		&plugin.Prefix{Prefix: netip.MustParsePrefix("2001:db8:c::/64"), OnLink: true, Autonomous: true,
@@ -49,8 +54,17 @@ func c16Clamp(d time.Duration) time.Duration {
 	return d
 }
 
+type c16Addresser struct{}
+
+func (c16Addresser) AddressesByIndex(int) ([]system.IP, error) {
+	return []system.IP{{Address: netip.MustParsePrefix("2001:db8:d::1/64")}, {Address: netip.MustParsePrefix("fe80::1/64")}}, nil
+}
+func (c16Addresser) LoopbackRoutes() ([]system.Route, error) { return nil, nil }
+
 func c16WireRun(t *testing.T, c c06Case) (steps int, log string, out [][2]string) {
 	c.plugins = c16Plugins
+	system.VerifSetAddresser(c16Addresser{})
+	defer system.VerifSetAddresser(nil)
 	x, a, _ := c06Run(t, c)
 	if x.Failure != "" {
 		return x.Steps, x.LogString(), [][2]string{{"C16:wire:" + x.FailKind, x.Failure}}
@@ -65,10 +79,13 @@ func c16WireRun(t *testing.T, c c06Case) (steps int, log string, out [][2]string
 			continue
 		}
 		var v, p, r time.Duration = -1, -1, -1
+		nwild := 0
 		for _, o := range w.RA.Options {
 			switch o := o.(type) {
 			case *ndp.PrefixInformation:
-				if o.Prefix == netip.MustParseAddr("2001:db8:d::") {
+				if o.Prefix == netip.MustParseAddr("2001:db8:d::") && o.ValidLifetime == 2*time.Hour && o.PreferredLifetime == time.Hour && nwild == 0 {
+					nwild++ // the wildcard's option for the same /64: constants
+				} else if o.Prefix == netip.MustParseAddr("2001:db8:d::") {
 					v, p = o.ValidLifetime, o.PreferredLifetime
 				} else if o.ValidLifetime != time.Hour || o.PreferredLifetime != time.Minute {
 					bad("C16:wire:constant-changed", "RA #%d at %s: non-deprecated prefix advertises %s/%s", i, w.T, o.ValidLifetime, o.PreferredLifetime)
@@ -76,6 +93,9 @@ func c16WireRun(t *testing.T, c c06Case) (steps int, log string, out [][2]string
 			case *ndp.RouteInformation:
 				r = o.RouteLifetime
 			}
+		}
+		if nwild != 1 {
+			bad("C16:wire:wildcard-option", "RA #%d at %s: %d options of the ::/64 wildcard for 2001:db8:d::/64 with its constant lifetimes, want 1", i, w.T, nwild)
 		}
 		if v < 0 || r < 0 {
 			bad("C16:wire:option-missing", "RA #%d at %s to %s lacks the deprecated prefix or route", i, w.T, w.Dst)
@@ -103,7 +123,7 @@ func c16WireRun(t *testing.T, c c06Case) (steps int, log string, out [][2]string
 func TestVerifC16Wire(t *testing.T) {
 	r := ev.Begin("C16", "wire")
 	defer r.End(t)
-	r.Rule = "histories = all sequences of <=K events over {solicitation from ::, unicast solicitation, link change (re-initialisation), transient failure of the next scheduled multicast RA} x gap {0.1, 2.9, 3.1, 6 s}, injected into the real Advertiser (min=max=4s; deprecated prefix valid 20s / preferred 10s, deprecated route 15s, epoch = start of the virtual clock; one non-deprecated prefix) and followed by 8 quiet seconds; oracle on every RA handed to WriteTo: lifetimes = max(0, deadline - transmission time) exactly, never above the previous RA's, preferred<=valid, constants for the non-deprecated prefix; states = histories; non-trivial = history has >=1 event; distinct = distinct history"
+	r.Rule = "histories = all sequences of <=K events over {solicitation from ::, unicast solicitation, link change (re-initialisation), transient failure of the next scheduled multicast RA} x gap {0.1, 2.9, 3.1, 6 s}, injected into the real Advertiser (min=max=4s; deprecated prefix valid 20s / preferred 10s, deprecated route 15s, epoch = start of the virtual clock; one non-deprecated prefix; and the ::/64 wildcard listed first, which expands to the deprecated stanza's /64 too) and followed by 8 quiet seconds; oracle on every RA handed to WriteTo: lifetimes = max(0, deadline - transmission time) exactly, never above the previous RA's, preferred<=valid, constants for the non-deprecated prefix; states = histories; non-trivial = history has >=1 event; distinct = distinct history"
 	r.Assumptions = []string{"canonical goroutine schedule per history", "random delay draws at their default (0) answer"}
 	if r.Replay != nil {
 		var c c06Case
